@@ -64,6 +64,7 @@ impl<R: Req> Endpoint<R> {
                 body: Seq::<u8>::empty(), payload: Seq::<u8>::empty(), fds: opt_rawfds(fds) })) && final(self).io_failed@ == old(self).io_failed@,
             r is Err ==> final(self).log@ == old(self).log@ && final(self).io_failed@,
     { unimplemented!() }
+    // proved-by: c08_send_message_frame (kani: exactly hdr|body and the caller's descriptors handed to send_iovec_all once) + unit chunk (send_iovec_all) + assumed: A-OS for sendmsg
     #[verifier::external_body]
     pub fn send_message<T: ByteValued>(&mut self, hdr: &VhostUserMsgHeader<R>, body: &T, fds: Option<&[RawFd]>) -> (r: VhostUserResult<()>)
         ensures
@@ -71,6 +72,7 @@ impl<R: Req> Endpoint<R> {
                 body: body.bytes(), payload: Seq::<u8>::empty(), fds: opt_rawfds(fds) })) && final(self).io_failed@ == old(self).io_failed@,
             r is Err ==> final(self).log@ == old(self).log@ && final(self).io_failed@,
     { unimplemented!() }
+    // proved-by: c08_send_message_with_payload_frame / _limits (kani) + unit chunk + assumed: A-OS
     #[verifier::external_body]
     pub fn send_message_with_payload<T: ByteValued>(&mut self, hdr: &VhostUserMsgHeader<R>, body: &T, payload: &[u8], fds: Option<&[RawFd]>) -> (r: VhostUserResult<()>)
         ensures
@@ -116,6 +118,7 @@ pub open spec fn regions_bytes(v: Seq<VhostUserMemoryRegion>) -> Seq<u8>
 {
     if v.len() == 0 { Seq::<u8>::empty() } else { regions_bytes(v.drop_last()) + v.last().bytes() }
 }
+// R7 target: align_to::<u8>() of the region array = concatenation of the regions' byte images (proved-by: c01_body_bytes_* layout harnesses)
 #[verifier::external_body]
 pub fn regions_as_bytes(v: &Vec<VhostUserMemoryRegion>) -> (r: &[u8])
     ensures r@ == regions_bytes(v@), r@.len() == v@.len() * 32
